@@ -41,6 +41,7 @@ type tableProg struct {
 	Entries []ent    // distinct keys, any order: sorted before use
 	Target  int      // WriteRun target size in bytes
 	Probes  [][]byte // extra lookup keys / prefixes
+	NilKey  bool     // an empty key is passed as a nil slice (a caller that builds keys by appending to nil)
 	Gens    int      // the reopened tables are the Gens-th generation: each generation is opened from the document of the previous one (0 = 1)
 	Read    bool     // an intermediate generation is read before it is described again
 }
@@ -77,6 +78,7 @@ func genTable(rt *rapid.T) tableProg {
 		})
 	}
 	p.Target = rapid.OneOf(rapid.IntRange(1, 60), rapid.IntRange(60, 600), rapid.IntRange(600, 6000)).Draw(rt, "target")
+	p.NilKey = rapid.Bool().Draw(rt, "nilkey")
 	p.Gens = rapid.SampledFrom([]int{1, 1, 2, 2, 3}).Draw(rt, "gens")
 	p.Read = rapid.Bool().Draw(rt, "readbetween")
 	np := rapid.IntRange(0, 6).Draw(rt, "nprobes")
@@ -92,6 +94,12 @@ func sortedRun(p tableProg) []*ent {
 		e := p.Entries[i]
 		if e.Del {
 			e.V = nil
+		}
+		if len(e.K) == 0 {
+			e.K = []byte{}
+			if p.NilKey {
+				e.K = nil
+			}
 		}
 		run[i] = &e
 	}
@@ -253,6 +261,11 @@ func execTable(p tableProg, c *hx.Case) error {
 		return hx.Errf("Write: %v", err)
 	}
 	defer runtime.KeepAlive(whole)
+	if len(run) > 0 {
+		if d := whole.Document(); !bytes.Equal(d.StartKey, run[0].K) || !bytes.Equal(d.EndKey, run[len(run)-1].K) {
+			return hx.Errf("a table of %d entries from %q to %q describes itself as the range %q..%q", len(run), run[0].K, run[len(run)-1].K, d.StartKey, d.EndKey)
+		}
+	}
 	var keep []*sst.Table
 	defer func() { runtime.KeepAlive(keep) }()
 	sets := []struct {
@@ -351,7 +364,7 @@ func execTable(p tableProg, c *hx.Case) error {
 }
 
 func TestPropTable(t *testing.T) {
-	hx.Run(t, hx.Spec{Prop: "C17", Rule: "key-ascending runs of 0..120 entries (sizes clustered at 0-3, 14-18, 30-34) of puts/tombstones with binary keys incl. empty and >=0x80 bytes, written whole and with WriteRun(target 1..6000); Get of every key and neighbours, ScanPrefix of nil/present/absent prefixes, again after reopening each table from its JSON-serialised document (1..3 generations: a reopened table is described and opened again, every generation's document equal to the first), ranges disjoint+ordered, LevelList lookups outside the range; non-trivial = >16 entries, >=1 tombstone and >=2 tables"}, genTable, execTable)
+	hx.Run(t, hx.Spec{Prop: "C17", Rule: "key-ascending runs of 0..120 entries (sizes clustered at 0-3, 14-18, 30-34) of puts/tombstones with binary keys incl. empty (as an empty or a nil slice) and >=0x80 bytes, written whole and with WriteRun(target 1..6000); Get of every key and neighbours, ScanPrefix of nil/present/absent prefixes, again after reopening each table from its JSON-serialised document (1..3 generations: a reopened table is described and opened again, every generation's document equal to the first), ranges disjoint+ordered, LevelList lookups outside the range; non-trivial = >16 entries, >=1 tombstone and >=2 tables"}, genTable, execTable)
 }
 
 // ---------------------------------------------------------------- bloom
